@@ -883,7 +883,9 @@ def make_dataset(rng, outdir, n_samples=3, n_loci=3, ploidies=(2, 4), max_snvs=5
     snv_vcf = write_snv_vcf(os.path.join(outdir, "snvs.vcf"), contigs, loci)
     bed = write_bed(os.path.join(outdir, "targets.bed"), loci)
     ploidy_file = write_text(
-        os.path.join(outdir, "ploidy.txt"), "".join(f"{s}\t{ploidy[s]}\n" for s in samples)
+        # per-sample files are maps by name: written in reverse order of the samples, so that nothing can rely on
+        # the lines being aligned with the order of the --bam arguments
+        os.path.join(outdir, "ploidy.txt"), "".join(f"{s}\t{ploidy[s]}\n" for s in reversed(samples))
     )
     return Dataset(
         dir=outdir, fasta=fasta, contigs=contigs, samples=samples, ploidy=ploidy, bams=bam_order,
